@@ -118,11 +118,20 @@ LookupHit(T) ==
   /\ last' = [op |-> "get", key |-> K0(T), hit |-> TRUE, res |-> RunOf(dict[K0(T)])]
   /\ UNCHANGED <<wid, reg, dict, errs, allc, tmc, nres>>
 
+(* a failure that was already worked out for this key (no candidate at all, or a tie in the first rank) is  *)
+(* remembered in errs like a success is in dict: nothing is resolved again                                  *)
+RememberedRes(T) == IF <<>> \in RankListsL(W, M, T, LVOf(T)) THEN NoMethod ELSE Ambiguous
+
+LookupErrHit(T) ==
+  /\ K0(T) \notin DOMAIN dict /\ K0(T) \in errs
+  /\ last' = [op |-> "get", key |-> K0(T), hit |-> TRUE, res |-> RememberedRes(T)]
+  /\ UNCHANGED <<wid, reg, dict, errs, allc, tmc, nres>>
+
 LookupMiss(T) ==
-  /\ K0(T) \notin DOMAIN dict
+  /\ K0(T) \notin DOMAIN dict /\ K0(T) \notin errs
   /\ \E r \in RankListsL(W, M, T, LVOf(T)) :
        /\ dict' = IF r = <<>> THEN dict ELSE MissDict(r, T)
-       /\ errs' = IF r = <<>> THEN errs ELSE MissErrs(r, T)
+       /\ errs' = IF r = <<>> THEN errs \cup {K0(T)} ELSE MissErrs(r, T)
        /\ allc' = MissAll(r, T)
        /\ last' = [op |-> "get", key |-> K0(T), hit |-> FALSE, res |-> MissRes(r, T)]
   /\ tmc' = TmFill(T)
@@ -150,11 +159,17 @@ NextMissInnerHit(m, T) ==
               res |-> NextRes(dict, errs, allc, m, T, RunOf(dict[K0(T)]))]
   /\ UNCHANGED <<wid, reg, dict, errs, allc, tmc, nres>>
 
+(* the plain key failed before: self[real_tup] raises the remembered error *)
+NextInnerErr(m, T) ==
+  /\ KN(m, T) \notin DOMAIN dict /\ K0(T) \notin DOMAIN dict /\ K0(T) \in errs
+  /\ last' = [op |-> "get", key |-> KN(m, T), hit |-> FALSE, res |-> RememberedRes(T)]
+  /\ UNCHANGED <<wid, reg, dict, errs, allc, tmc, nres>>
+
 NextMissInnerMiss(m, T) ==
-  /\ KN(m, T) \notin DOMAIN dict /\ K0(T) \notin DOMAIN dict
+  /\ KN(m, T) \notin DOMAIN dict /\ K0(T) \notin DOMAIN dict /\ K0(T) \notin errs
   /\ \E r \in RankListsL(W, M, T, LVOf(T)) :
        LET d == IF r = <<>> THEN dict ELSE MissDict(r, T)
-           e == IF r = <<>> THEN errs ELSE MissErrs(r, T)
+           e == IF r = <<>> THEN errs \cup {K0(T)} ELSE MissErrs(r, T)
            a == MissAll(r, T) IN
        /\ dict' = d /\ errs' = e /\ allc' = a
        /\ last' = [op |-> "get", key |-> KN(m, T), hit |-> FALSE,
@@ -163,8 +178,8 @@ NextMissInnerMiss(m, T) ==
   /\ nres' = nres + 1
   /\ UNCHANGED <<wid, reg>>
 
-Lookup(T) == LookupHit(T) \/ LookupMiss(T)
-LookupNext(m, T) == NextHit(m, T) \/ NextMissInnerHit(m, T) \/ NextMissInnerMiss(m, T)
+Lookup(T) == LookupHit(T) \/ LookupErrHit(T) \/ LookupMiss(T)
+LookupNext(m, T) == NextHit(m, T) \/ NextMissInnerHit(m, T) \/ NextInnerErr(m, T) \/ NextMissInnerMiss(m, T)
 
 Next ==
   \/ \E mi \in DOMAIN Menu : Register(mi)
